@@ -315,6 +315,7 @@ func (f *frame) inline(fn *ssa.Function, args []Val, binds []Val, ct *Contract, 
 	}
 	f.R = vc.define("R.ret."+fn.Name(), "Bool", or(conds...))
 	f.st = vc.join(js)
+	f.afterJoin(len(js), nf.entry)
 	f.joinPaths = nil
 	if f.top && len(conds) > 1 && len(conds) <= 8 {
 		f.joinPaths = conds // the return conditions cover the reachability after the call: a sound case split
